@@ -186,6 +186,61 @@ pub fn c02_loop_budget() {
     kani::cover!(r.is_err(), "budget exceeded");
 }
 
+/// Native evaluation of the E2 (MIR->SMT) target functions of this crate on concrete inputs:
+/// VERIF_VECTORS_FILE holds one "<target id> <args...>" per line.
+#[cfg(all(test, not(kani)))]
+#[test]
+fn verif_vectors() {
+    use super::super::{math, round::{RoundMode, RoundState}};
+    let Ok(path) = std::env::var("VERIF_VECTORS_FILE") else {
+        return;
+    };
+    std::panic::set_hook(Box::new(|_| {}));
+    for line in std::fs::read_to_string(path).unwrap().lines() {
+        let mut it = line.split_whitespace();
+        let Some(id) = it.next() else { continue };
+        let a: Vec<i64> = it.map(|s| s.parse().unwrap()).collect();
+        let id2 = id.to_string();
+        let r = std::panic::catch_unwind(move || {
+            let x = |i: usize| a[i] as i32;
+            Some(match id2.as_str() {
+                "hint::math::floor" => math::floor(x(0)) as i64,
+                "hint::math::round" => math::round(x(0)) as i64,
+                "hint::math::ceil" => math::ceil(x(0)) as i64,
+                "hint::math::round_pad" => math::round_pad(x(0), x(1)) as i64,
+                "hint::math::mul" => math::mul(x(0), x(1)) as i64,
+                "hint::math::div" => math::div(x(0), x(1)) as i64,
+                "hint::math::mul_div" => math::mul_div(x(0), x(1), x(2)) as i64,
+                "hint::math::mul_div_no_round" => math::mul_div_no_round(x(0), x(1), x(2)) as i64,
+                "hint::math::mul14" => math::mul14(x(0), x(1)) as i64,
+                "RoundState::round" => {
+                    let mode = match a[0] {
+                        0 => RoundMode::Grid,
+                        1 => RoundMode::HalfGrid,
+                        2 => RoundMode::DoubleGrid,
+                        3 => RoundMode::DownToGrid,
+                        4 => RoundMode::UpToGrid,
+                        5 => RoundMode::Off,
+                        6 => RoundMode::Super,
+                        _ => RoundMode::Super45,
+                    };
+                    let rs = RoundState { mode, threshold: x(1), phase: x(2), period: x(3) };
+                    rs.round(F26Dot6::from_bits(x(4))).to_bits() as i64
+                }
+                _ => return None,
+            })
+        });
+        match r {
+            Ok(Some(v)) => println!("VEC {line} = {v}"),
+            Ok(None) => println!("VEC {line} = unknown-target"),
+            Err(e) => {
+                let msg = e.downcast_ref::<String>().cloned().or_else(|| e.downcast_ref::<&str>().map(|s| s.to_string())).unwrap_or_default();
+                println!("VEC {line} = panic: {msg}")
+            }
+        }
+    }
+}
+
 #[cfg(all(test, not(kani)))]
 include!("engine_dispatch.rs");
 
